@@ -178,6 +178,55 @@ def _react(rng, sols):
     return "MIX 1\n %d 0.5\n %d 0.5\n" % (s, s)
 
 
+def _recase(rng, name):
+    """the same name in another letter case (PHREEQC matches phase, rate and solid-solution component names case-insensitively)"""
+    r = rng.random()
+    if r < 0.35:
+        return name
+    if r < 0.6:
+        return name.lower()
+    if r < 0.8:
+        return name.upper()
+    return name.swapcase()
+
+
+def entity_call(rng, k, u):
+    """one call: SELECTED_OUTPUT u with every entity-list option (-totals -molalities -activities -equilibrium_phases
+    -saturation_indices -gases -kinetic_reactants -solid_solutions -calculate_values), names written in a letter case that
+    may differ from the defining block / database, then simulations in which the entities are present or absent"""
+    t = [solution(rng, k, elts=["Ca", "C(4)", "Na", "Cl", "Sr", "S(6)"])]
+    so = [f"SELECTED_OUTPUT {u}"]
+    if rng.random() < 0.6:
+        so.append(" -reset false")
+    if rng.random() < 0.3:
+        so.append(" -high_precision true")
+    opts = [" -equilibrium_phases " + " ".join(_recase(rng, x) for x in rng.sample(["Calcite", "Gypsum", "Celestite"], rng.randint(1, 2))),
+            " -saturation_indices " + " ".join(_recase(rng, x) for x in rng.sample(["Calcite", "Gypsum", "CO2(g)", "Strontianite"], rng.randint(1, 3))),
+            " -gases " + " ".join(_recase(rng, x) for x in rng.sample(["CO2(g)", "N2(g)", "O2(g)"], rng.randint(1, 2))),
+            " -kinetic_reactants " + " ".join(_recase(rng, x) for x in rng.sample(["Myrate", "Other_rate"], rng.randint(1, 2))),
+            " -solid_solutions " + " ".join(_recase(rng, x) for x in rng.sample(["Calcite", "Strontianite", "Nosuchcomp"], rng.randint(1, 3))),
+            " -calculate_values " + " ".join(_recase(rng, x) for x in rng.sample(["Cv_one", "cv_two"], rng.randint(1, 2))),
+            " -totals " + " ".join(rng.sample(["Ca", "Na", "Sr", "C(4)"], rng.randint(1, 2))),
+            " -molalities " + " ".join(rng.sample(["Ca+2", "CO3-2", "ca+2", "NaCO3-"], rng.randint(1, 2))),
+            " -activities " + " ".join(rng.sample(["H+", "Ca+2", "h+"], rng.randint(1, 2)))]
+    for o in rng.sample(opts, rng.randint(3, len(opts))):
+        so.append(o)
+    t.append("\n".join(so) + "\n")
+    t.append("RATES\n Myrate\n -start\n 10 SAVE 1e-7 * TIME\n -end\n Other_rate\n -start\n 10 SAVE 2e-7 * TIME\n -end\n")
+    t.append("CALCULATE_VALUES\n Cv_one\n -start\n 10 SAVE 2 * TOT(\"Na\")\n -end\n cv_two\n -start\n 10 SAVE MU\n -end\n")
+    if rng.random() < 0.3:
+        t.append(user_punch(rng, u))
+    t.append("END\n")
+    sims = ["USE solution %d\nEQUILIBRIUM_PHASES 1\n Calcite 0 1\n Gypsum 0 %s\nEND\n" % (k, rng.choice(["0", "1"])),
+            "USE solution %d\nSOLID_SOLUTIONS 1\n CaSrCO3\n  -comp Calcite 0.01\n  -comp Strontianite 0.001\nEND\n" % k,
+            "USE solution %d\nGAS_PHASE 1\n -fixed_pressure\n -pressure 1\n CO2(g) 0.01\n N2(g) 0.9\nEND\n" % k,
+            "USE solution %d\nKINETICS 1\n Myrate\n  -formula NaCl 1\n  -m0 1\n -steps 100 in 2 steps\nEND\n" % k,
+            "USE solution %d\nREACTION 1\n NaCl 1\n 0.01\nEND\n" % k]
+    for sm in rng.sample(sims, rng.randint(2, len(sims))):
+        t.append(sm)
+    return "".join(t)
+
+
 def history(rng, ncalls=None, allow_error=True):
     """list of input texts for consecutive Run* calls on one instance. The calls differ: definitions of SELECTED_OUTPUT /
     USER_PUNCH are made once and then persist, are redefined in later calls or in later simulations of a call, PRINT
@@ -206,7 +255,17 @@ def history(rng, ncalls=None, allow_error=True):
             kind = "dump"
         else:
             kind = "define"
+        if k > 0 and rng.random() < 0.12:
+            kind = "entities"
         kinds.append(kind)
+        if kind == "entities":
+            nsol += 1
+            sols.append(nsol)
+            u = rng.choice(POOL)
+            if u not in defined:
+                defined.append(u)
+            calls.append(entity_call(rng, nsol, u))
+            continue
         if rng.random() < 0.15:
             t.append("TITLE call %d\n" % k)
         if rng.random() < 0.12:
